@@ -35,6 +35,7 @@ class Contract:
 	types: dict[str, str] = field(default_factory=dict)  # parameter / local / return types where annotations are missing or abstract
 	instantiate: dict[str, list[Any]] = field(default_factory=dict)
 	rewrites: dict[str, str] = field(default_factory=dict)  # unparse(call) -> contract expression (an assumed reading of an external call)
+	stmt_rewrites: dict[str, str] = field(default_factory=dict)  # unparse(statement) -> replacement statements (an assumed reading of a statement outside the subset; always reported)
 	hints_entry: list[str] = field(default_factory=list)
 	hints_exit: list[str] = field(default_factory=list)
 	top: list[str] = field(default_factory=list)  # which ensures clauses are taken from the property statement
